@@ -252,6 +252,11 @@ func c14DiscardGuard(c *Ctx, r string) {
 			}
 		}
 	}
+	// the first chunk kept is the one holding byte `off`: appendableID is applied to the offset itself
+	for i, in := range sites(f, callTo("embedded/appendable/multiapp.appendableID")) {
+		a := desc(callOf(in).Args[0])
+		c.check(a == "param:off", r, fmt.Sprintf("%s:first-kept-chunk-holds-off#%d", fnName(f), i), c.pos(in.Pos()), "appendableID(off, fileSize)", "the first chunk to keep is computed from "+a+" instead of the discard offset: the chunk holding the byte at `off` can be removed")
+	}
 	// the removed file is the i-th chunk
 	for _, in := range sites(f, callTo("os.Remove")) {
 		a := desc(callOf(in).Args[0])
